@@ -147,8 +147,8 @@ def run(tier):
     reg = "G 0 " + gram.encode({"lex": [], "syn": [(h, [(0, s) if s in nts else (1, alias[s]) for s in b], 0, 0) for h, b in gprods[1:]]})
     mterms = [bytes.fromhex(h[1:]).decode() for h in C.run_model([reg, "terminals 0"])[1].split()]
     mtype = {int(n[1:]) - 1: k for k, n in enumerate(mterms) if n.startswith("T")}
-    nbase = 12 if tier == "quick" else 400
-    nmut = 40 if tier == "quick" else 250
+    nbase = 12 if tier == "quick" else 150
+    nmut = 40 if tier == "quick" else 150
     b = batch.Batch("c14")
     cases = []
     vcases = []
